@@ -649,7 +649,10 @@ int main(int argc, char **argv)
   vr::note(buf);
   snprintf(buf, sizeof buf, "pcg32_biased_float_distribution over all 2^32 seeds x %d ranges: first draw == upper for %llu, == lower for %llu, above upper for %llu (worst %.2f rounding steps)",
       g_nranges, (unsigned long long)total.obs_pcg_eq_upper, (unsigned long long)total.obs_pcg_eq_lower, (unsigned long long)total.obs_pcg_above_upper, total.max_pcg_over_ulps);
-  vr::note(buf);
+  if (total.inputs_seed)
+    vr::note(buf);
+  else
+    vr::note("the seed and colour-index sweeps were not part of this run (--parts): they do not depend on RKCOMMON_NO_SIMD and run in the default build");
   vr::sample(std::string("build ") + BUILD_NAME + ": every float bit pattern in value order, e.g. key 0x80000000 -> +0, key 0xff800000 -> +inf");
   vr::sample("rcp(" + fstr(f_of(total.arg_rcp)) + ") = " + fstr(rm::rcp(f_of(total.arg_rcp))) + " (worst case)");
   vr::sample("rsqrt(" + fstr(f_of(total.arg_rsqrt)) + ") = " + fstr(rm::rsqrt(f_of(total.arg_rsqrt))) + " (worst case)");
